@@ -1148,6 +1148,50 @@ func runC11(c *Ctx) {
 	if nIns != 1 {
 		o.Fail(G.Pos(), "expected exactly one registration site, found %d", nIns)
 	}
+	// with a filter configured, no path registers a conn without having asked it: every path to the registration
+	// has found the filter field nil or the filter's verdict true (a filter skipped for some datagrams - empty
+	// ones, say - lets refused remotes in)
+	{
+		filterField := ""
+		instrsOfU(G, func(fi ssa.Instruction) {
+			call, ok := fi.(*ssa.Call)
+			if !ok || call.Call.IsInvoke() || call.Call.StaticCallee() != nil {
+				return
+			}
+			if fr, ok := asFieldLoad(call.Call.Value); ok && fr.SName == r.LT {
+				filterField = fr.Field
+			}
+		})
+		if filterField != "" {
+			forEach(findU(G, func(ssa.Instruction) bool { return true }), func(in ssa.Instruction) {
+				mu, ok := in.(*ssa.MapUpdate)
+				if !ok || !isFieldLoad(mu.Map, r.LT, r.conns) {
+					return
+				}
+				okAll, decided := everyUnitPathTo(G, in, func(conds []fact) bool {
+					for _, ft := range conds {
+						if nilFact(ft, func(v ssa.Value) bool { return isFieldLoad(v, r.LT, filterField) }, true) {
+							return true
+						}
+						if boolFact(ft, func(v ssa.Value) bool {
+							call, ok := v.(*ssa.Call)
+							if !ok || call.Call.IsInvoke() || call.Call.StaticCallee() != nil {
+								return false
+							}
+							fr, ok := asFieldLoad(call.Call.Value)
+							return ok && fr.SName == r.LT && fr.Field == filterField
+						}, true) {
+							return true
+						}
+					}
+					return false
+				})
+				if decided && !okAll {
+					o.Fail(in.Pos(), "a conn can be registered on a path that neither found the accept filter unset nor obtained its consent: for some datagrams the filter is not consulted")
+				}
+			})
+		}
+	}
 	if sel != nil && sel.Blocking {
 		o.Fail(sel.Pos(), "the enqueue blocks (the read loop would stall under connLock)")
 	}
